@@ -3,10 +3,20 @@
 Demes.Theorems) plus the table/fact obligations each property depends on."""
 import json, os, re
 LEAN = os.path.join(os.path.dirname(os.path.dirname(os.path.abspath(__file__))), "lean")
+# Theorems/Builder.lean (the Builder entry route) serves three properties: a FILES entry may be
+# ("Module", [theorem names]) to register only the named theorems of that file
+BUILDER_C01 = ["builder_resolve_valid"]
+BUILDER_C18 = ["builder_history", "builder_history_stable", "builder_fromdict_history"]
+BUILDER_C02 = ["builder_doc", "builder_equiv_dict", "builder_run_callsOfDoc", "builder_roundtrip_exact", "builder_fromdict_is_dict",
+               "builder_equiv_dict_counterexample", "builder_equiv_dict_null_counterexample", "builder_equiv_dict_infinity_counterexample",
+               "builder_equiv_dict_null_default_counterexample", "builder_equiv_dict_empty_demes_counterexample",
+               "builder_none_is_absent", "builder_none_kept", "builder_none_hides_default_demes", "builder_none_hides_default_source",
+               "builder_none_hides_default_dest", "builder_none_vs_omitted_counterexample", "builder_time_units_none_kept",
+               "builder_infinity_string", "builder_values_verbatim", "builder_infinity_elsewhere_counterexample"]
 FILES = {
-    "C01": ["C01", "C01Ops"], "C02": ["C02"], "C03": ["C03"], "C04": ["C04"], "C05": ["C05"], "C06": ["C06"],
+    "C01": ["C01", "C01Ops", ("Builder", BUILDER_C01)], "C02": ["C02", ("Builder", BUILDER_C02)], "C03": ["C03"], "C04": ["C04"], "C05": ["C05"], "C06": ["C06"],
     "C07": ["C07"], "C08": ["C08"], "C09": ["C09"], "C10": ["C10"], "C11": ["C11"], "C12": ["C12"],
-    "C13": ["C13", "C13Real"], "C14": ["C14"], "C15": ["C15"], "C16": ["C16"], "C17": ["C17"], "C18": ["C18"],
+    "C13": ["C13", "C13Real"], "C14": ["C14"], "C15": ["C15"], "C16": ["C16"], "C17": ["C17"], "C18": ["C18", ("Builder", BUILDER_C18)],
     "C19": ["C19"], "C20": ["C20"],
 }
 T = lambda mod, names: [{"module": f"DemesVerif.Theorems.{mod}", "name": f"Demes.Tables.{n}"} for n in names]
@@ -19,17 +29,38 @@ EVENT_TABLES = ["tables_class_split", "tables_class_branch", "tables_class_merge
 MS_TABLES = ["tables_ms_parser", "tables_ms_structure", "tables_ms_event", "tables_ms_growth", "tables_ms_pop_growth", "tables_ms_size",
              "tables_ms_pop_size", "tables_ms_mig_rate", "tables_ms_mig_entry", "tables_ms_mig_matrix", "tables_ms_split", "tables_ms_join",
              "tables_ms_float_str"]
+# semantic tie of the numeric guard conditions (Generated/Guards.lean, DESIGN §4.1)
+GUARDS_RESOLVE = ["guards_sites_resolve", "guards_context_resolve",
+                  "guards_tie_int_or_float", "guards_tie_int_or_float_not_number", "guard_int_or_float_duck_meaning",
+                  "guards_tie_positive", "guards_tie_non_negative", "guards_tie_finite", "guards_tie_unit_interval",
+                  "guards_tie_unit_interval_exclusive_lo", "guards_tie_list_positive_finite",
+                  "guards_tie_list_non_negative_finite", "guards_tie_list_positive", "guards_tie_list_non_negative",
+                  "guards_tie_list_unit_interval", "guards_tie_list_unit_interval_exclusive_lo", "guards_tie_sum_less_than_one",
+                  "guard_epoch_order_meaning", "guard_epoch_inf_constant_meaning", "guard_epoch_constant_sizes_meaning",
+                  "guards_tie_add_epoch",
+                  "guard_add_deme_no_ancestors_meaning", "guard_add_deme_alive_meaning", "guards_tie_add_deme_header",
+                  "guard_time_intersection_meaning", "guards_tie_time_intersection",
+                  "guard_migration_same_deme_meaning", "guard_migration_order_meaning", "guard_migration_overlap_meaning",
+                  "guards_tie_add_asymmetric_migration",
+                  "guard_pulse_dest_end_meaning", "guard_pulse_source_start_meaning", "guard_pulse_sum_meaning",
+                  "guards_tie_add_pulse"]
+GUARDS_MATRICES = ["guards_sites_matrices", "guards_context_matrices", "guard_matrices_break_meaning",
+                   "guard_matrices_active_meaning", "guard_matrices_occupied_meaning", "guards_tie_sweep",
+                   "guards_tie_migration_matrices", "guard_migration_rates_meaning", "guards_tie_check_migration_rates"]
+GUARDS_SIZE_AT = ["guards_sites_size_at", "guards_context_size_at", "guard_size_at_inf_meaning",
+                  "guard_size_at_epoch_meaning", "guard_size_at_end_size_meaning", "guards_tie_size_at"]
+G_RESOLVE = T("TablesGuards", GUARDS_RESOLVE) + T("TablesGuardsMatrices", GUARDS_MATRICES)
 EXTRA = {
-    "C01": T("TablesResolve", RESOLVE_TABLES) + T("TablesConst", ["tables_rel_tol"]),
+    "C01": T("TablesResolve", RESOLVE_TABLES) + T("TablesConst", ["tables_rel_tol"]) + G_RESOLVE,
     "C02": T("TablesResolve", RESOLVE_TABLES),
-    "C03": T("TablesResolve", RESOLVE_TABLES) + T("TablesConst", ["tables_rel_tol"]),
+    "C03": T("TablesResolve", RESOLVE_TABLES) + T("TablesConst", ["tables_rel_tol"]) + G_RESOLVE,
     "C05": T("TablesResolve", RESOLVE_TABLES[:7]),
     "C06": T("TablesResolve", RESOLVE_TABLES[:7]),
     "C07": T("TablesMs", MS_TABLES), "C08": T("TablesMs", MS_TABLES), "C09": T("TablesMs", MS_TABLES),
     "C10": T("TablesConst", ["tables_rel_tol", "tables_abs_tol"]),
     "C11": T("TablesFacts", ["fact_in_generations_copies_first"]),
-    "C12": T("TablesConst", ["tables_rel_tol"]),
-    "C13": T("TablesConst", ["tables_rel_tol"]),
+    "C12": T("TablesConst", ["tables_rel_tol"]) + T("TablesGuardsMatrices", GUARDS_MATRICES),
+    "C13": T("TablesConst", ["tables_rel_tol"]) + T("TablesGuardsSizeAt", GUARDS_SIZE_AT),
     "C14": T("TablesResolve", EVENT_TABLES),
     "C15": T("TablesFacts", ["fact_rename_demes_copies_first"]),
     "C18": T("TablesFacts", ["fact_fromdict_copies_first", "fact_builder_resolve_passes_data", "fact_fromdict_copy_is_unaliased", "fact_deepcopy_unaliased_shape", "fact_builder_resolve_only_passes_data"]),
@@ -42,13 +73,22 @@ reg = {}
 for pid, mods in FILES.items():
     entries = []
     for m in mods:
+        only = None
+        if isinstance(m, tuple):
+            m, only = m
         p = os.path.join(LEAN, "DemesVerif", "Theorems", m + ".lean")
         if not os.path.exists(p):
             continue
         src = open(p, encoding="utf-8").read()
         src = re.sub(r"/-.*?-/", "", src, flags=re.S)
         ns = re.search(r"^namespace\s+(\S+)", src, flags=re.M).group(1)
-        for name in re.findall(r"^theorem\s+(\S+)", src, flags=re.M):
+        names = re.findall(r"^theorem\s+(\S+)", src, flags=re.M)
+        if only is not None:
+            missing = [n for n in only if n not in names]
+            assert not missing, f"{m}: theorems not found: {missing}"
+        for name in names:
+            if only is not None and name not in only:
+                continue
             entries.append({"module": f"DemesVerif.Theorems.{m}", "name": f"{ns}.{name}"})
     for (m, n) in BORROW.get(pid, []):
         entries.append({"module": f"DemesVerif.Theorems.{m}", "name": f"Demes.Theorems.{n}"})
